@@ -340,7 +340,9 @@ func renderCase(name string, site0, site2 int, body []cstmt) string {
 
 // prelude: the instrumented support code. Decisions come from `bits`; the run records, for every
 // sink call, the markers of its argument that no validator accepted.
-const casePrelude = `package main
+const nativeSupport = `//go:build native
+
+package main
 
 var (
 	bits      []bool
@@ -389,6 +391,9 @@ func n() int {
 
 //go:noinline
 func nop() {}
+
+//go:noinline
+func d(k int) {}
 
 // lim stops a run whose strings grow without bound (repeated self-concatenation in a loop).
 //
@@ -557,13 +562,98 @@ func explore(id int, maxBits int, f func()) {
 }
 `
 
-// renderMain prints main(): run every case, then print the flows.
-func renderMain(ncases int, maxBits int) string {
-	var sb strings.Builder
+// stubSupport: what the analysis sees of the support functions (the bodies are irrelevant to the
+// property: sources, sinks, sanitizers and validators are identified by name; the case functions
+// are the same file in both builds).
+const stubSupport = `//go:build !native
+
+package main
+
+var cnt int
+
+//go:noinline
+func tick() { cnt++ }
+
+//go:noinline
+func c() bool { cnt++; return cnt%3 == 0 }
+
+//go:noinline
+func always() bool { return c() }
+
+//go:noinline
+func n() int { cnt++; return cnt % 4 }
+
+//go:noinline
+func nop() {}
+
+//go:noinline
+func d(k int) {}
+
+//go:noinline
+func lim(s string) {}
+
+//go:noinline
+func use(a, b, d string) {}
+
+//go:noinline
+func source(site int) string { return "s" }
+
+//go:noinline
+func sink(site int, s string) {}
+
+//go:noinline
+func sanitize(s string) string { return "clean" }
+
+type errT struct{}
+
+func (errT) Error() string { return "bad" }
+
+//go:noinline
+func validate(s string) bool { return c() }
+
+//go:noinline
+func validate2(k int, s string) bool { return c() }
+
+//go:noinline
+func check(s string) error {
+	if c() {
+		return nil
+	}
+	return errT{}
+}
+
+//go:noinline
+func check2(s string) (string, error) { return "i", check(s) }
+
+//go:noinline
+func check3(s string) (string, bool) { return "i", c() }
+
+//go:noinline
+func check4(s string) (error, bool) { return check(s), c() }
+
+//go:noinline
+func other(s string) bool { return c() }
+
+type validator interface{ Validate(s string) bool }
+
+type realValidator struct{}
+
+func (realValidator) Validate(s string) bool { return c() }
+
+var vi validator = realValidator{}
+`
+
+// renderMains prints the two main functions: native (explore every case, print the flows) and stub
+// (call every case once, so that everything is reachable for the analysis).
+func renderMains(ncases int, maxBits int) (native, stub string) {
+	var sb, st strings.Builder
 	sb.WriteString("\nfunc main() {\n\tflows = map[[3]int]bool{}\n")
+	st.WriteString("\nfunc main() {\n")
 	for i := 0; i < ncases; i++ {
 		fmt.Fprintf(&sb, "\texplore(%d, %d, case%d)\n", i, maxBits, i)
+		fmt.Fprintf(&st, "\tcase%d()\n", i)
 	}
 	sb.WriteString("\tfor k := range flows {\n\t\tprintln(\"F\", k[0], k[1], k[2])\n\t}\n}\n")
-	return sb.String()
+	st.WriteString("}\n")
+	return sb.String(), st.String()
 }
